@@ -28,6 +28,8 @@ var wrapperDelegation = map[string]string{
 }
 
 func checkC05(p *Prog, r *Report) {
+	r.rule("C05.id-field: Wrapper.SetID stores through FieldByName(\"ID\") of the wrapped value (the field Check validates by its Go name) and GetID reads the ID from the wrapped value on every call; the Wrapper keeps no ID of its own")
+	checkWrapperID(p, r, "C05")
 	r.rule("C05.type-lookup: Schema.GetType / HasType find a type by one exact equality test between a type's Name and the requested name and call nothing else (the comparison AddType uses to keep names unique)")
 	checkTypeLookup(p, r, "C05")
 	r.rule(r3RuleText)
